@@ -1,5 +1,6 @@
 CONSTANTS
   MaxLen = 4
+  Faults = TRUE
   Emit = TRUE
 SPECIFICATION Spec
 INVARIANT OnlyCacheableStored
